@@ -229,6 +229,38 @@ Module PerfP.
     intros H. unfold trim_steps. rewrite sum_rev, trim_rev_sum; rewrite ?sum_rev; lia.
   Qed.
 
+  Lemma is_shift_eq e : is_shift e = true -> e = shift (snd e).
+  Proof. destruct e as [t v]. unfold is_shift, shift. cbn. intros H. f_equal. lia. Qed.
+
+  Lemma trim_rev_shape : forall m t num, exists dropped kept, m = dropped ++ kept /\
+    (trim_rev m t num = kept \/
+     exists v w kept', kept = shift v :: kept' /\ 0 < w < v /\ trim_rev m t num = shift w :: kept').
+  Proof.
+    induction m as [|e r IH]; intros t num; cbn [trim_rev].
+    - exists [], []. split; [reflexivity|now left].
+    - destruct (t <? num) eqn:Hc.
+      + destruct (is_shift e) eqn:Hs; [destruct (num <? t + snd e) eqn:Hd|].
+        * exists [], (e :: r). split; [reflexivity|]. right.
+          exists (snd e), (snd e - num + t), r. rewrite <- (is_shift_eq e Hs). repeat split; lia.
+        * destruct (IH (t + snd e) num) as (d & k & -> & H). exists (e :: d), k. split; [reflexivity|exact H].
+        * destruct (IH t num) as (d & k & -> & H). exists (e :: d), k. split; [reflexivity|exact H].
+      + exists [], (e :: r). split; [reflexivity|now left].
+  Qed.
+
+  (** _trim_steps keeps a prefix of the events, possibly followed by a
+      shortened version of the time shift that came next *)
+  Lemma trim_steps_shape l num : exists pre post, l = pre ++ post /\
+    (trim_steps l num = pre \/
+     exists v w post', post = shift v :: post' /\ 0 < w < v /\ trim_steps l num = pre ++ [shift w]).
+  Proof.
+    unfold trim_steps. destruct (trim_rev_shape (rev l) 0 num) as (d & k & Hl & H).
+    assert (Hl' : l = rev k ++ rev d) by (rewrite <- rev_app_distr, <- Hl, rev_involutive; reflexivity).
+    destruct H as [H|(v & w & k' & -> & Hw & H)]; rewrite H.
+    - exists (rev k), (rev d). split; [exact Hl'|now left].
+    - cbn [rev] in *. exists (rev k'), (shift v :: rev d). split; [rewrite Hl', <- app_assoc; reflexivity|].
+      right. exists v, w, (rev d). repeat split; lia.
+  Qed.
+
   (** ** set_length *)
   (** set_length(n) with n >= 0 and max_shift_steps >= 1 yields exactly n
       steps from the same start: `assert self.num_steps == steps` holds *)
